@@ -210,6 +210,15 @@ def rule_a(ctx, only=None):
                 d = _spec_match(rs, ss)
                 if d:
                     spec_problems.append('under %s: %s' % (rconds, d))
+            # the table row is matched under the reader's own path conditions: a reader that never looks at the
+            # metadata flag would agree with the row "without metadata" only - so the distinction itself is required
+            spec_items = tables.FRAME_LAYOUT.get(T.name) or []
+            if any(it in ('META', 'META_ONLY') for it in spec_items) and not any(
+                    rc.get('flags_metadata') is True and ('bytes', 'metadata') in [
+                        (x[0], x[1]) for x in _reader_sig(its) if x[0] == 'bytes']
+                    for rc, its, _f, _a, _p in rps):
+                spec_problems.append('the protocol gives this frame type a metadata section, but no path of the reader '
+                                     'reads one when the metadata flag is set: the metadata of every such frame is lost')
             c = '%s / reader = writer (%s)' % (T.name, backend)
             if problems:
                 rep.bad('C02.a', c, T.lookup('parse'), problems[0], extra={'all': problems[:5]})
